@@ -213,3 +213,201 @@ Proof.
   { induction (t_opts t) as [|o r IH]; cbn; auto. }
   rewrite H. rewrite andb_false_r. reflexivity.
 Qed.
+
+(* ------------------------------------------------------------------ SerializeTo: closed form *)
+Lemma skipn_skipn' {A} (a b : nat) (l : list A) : skipn a (skipn b l) = skipn (b + a) l.
+Proof.
+  revert l; induction b as [|b IH]; intros l; cbn [skipn Nat.add]; [reflexivity|].
+  destruct l as [|h t]; [destruct a; reflexivity|]. apply IH.
+Qed.
+
+Lemma be_bytes_length n x : length (be_bytes n x) = n.
+Proof. revert x; induction n as [|n IH]; intros x; cbn [be_bytes]; [reflexivity|]. rewrite app_length, IH. cbn. lia. Qed.
+
+Ltac slen := unfold len in *;
+  rewrite ?app_length, ?skipn_length, ?be_bytes_length, ?repeat_length in *; cbn [length] in *; lia.
+
+Lemma put_at s pre rest off vs : len pre = off -> len vs <= len rest ->
+  put s (pre ++ rest) off vs = Ok (pre ++ vs ++ skipn (length vs) rest).
+Proof.
+  intros H1 H2. unfold put.
+  replace ((0 <=? off) && (off + len vs <=? len (pre ++ rest))) with true by slen.
+  replace (Z.to_nat off) with (length pre) by slen.
+  rewrite firstn_app, firstn_all, Nat.sub_diag. cbn [firstn]. rewrite app_nil_r.
+  rewrite skipn_app. rewrite skipn_all2 by lia.
+  replace (length pre + length vs - length pre)%nat with (length vs) by lia. reflexivity.
+Qed.
+
+Definition opt_bytes (fx : bool) (o : tcpopt) : list Z :=
+  if is01 (o_type o) then [o_type o]
+  else o_type o :: (if fx then u8 (len (o_data o) + 2) else o_len o) :: o_data o.
+Definition opts_bytes (fx : bool) (os : list tcpopt) : list Z := flat_map (opt_bytes fx) os.
+
+Lemma opt_bytes_len fx o : len (opt_bytes fx o) = opt_wire_len o.
+Proof. unfold opt_bytes, opt_wire_len. destruct (is01 _); slen. Qed.
+
+Lemma opt_wire_len_pos o : 1 <= opt_wire_len o.
+Proof. unfold opt_wire_len. destruct (is01 _); slen. Qed.
+
+Lemma opts_len_nonneg os : 0 <= opts_len os.
+Proof. induction os as [|o r IH]; cbn [opts_len fold_right]; [lia|]. pose proof (opt_wire_len_pos o). fold (opts_len r). lia. Qed.
+
+Lemma opts_bytes_len fx os : len (opts_bytes fx os) = opts_len os.
+Proof.
+  induction os as [|o r IH]; cbn [opts_bytes flat_map opts_len fold_right]; [reflexivity|].
+  rewrite len_app, opt_bytes_len. fold (opts_bytes fx r). fold (opts_len r). lia.
+Qed.
+
+Lemma write_opts_eq fx : forall os pre rest start,
+  len pre = start -> opts_len os <= len rest ->
+  write_opts fx os (pre ++ rest) start =
+    Ok (pre ++ opts_bytes fx os ++ skipn (Z.to_nat (opts_len os)) rest, start + opts_len os).
+Proof.
+  induction os as [|o r IH]; intros pre rest start Hp Hr.
+  - cbn. rewrite Z.add_0_r. reflexivity.
+  - cbn [write_opts opts_len fold_right opts_bytes flat_map] in *. fold (opts_len r) in *. fold (opts_bytes fx r).
+    pose proof (opts_len_nonneg r) as Hnn. pose proof (opt_wire_len_pos o) as Hpos.
+    unfold opt_bytes, opt_wire_len in *.
+    rewrite put_at by slen. cbn [obind].
+    destruct (is01 (o_type o)) eqn:H01.
+    + rewrite app_assoc. rewrite IH by slen. rewrite <- app_assoc.
+      rewrite skipn_skipn'. cbn [length app].
+      replace (1 + Z.to_nat (opts_len r))%nat with (Z.to_nat (1 + opts_len r)) by lia.
+      f_equal. f_equal. lia.
+    + rewrite app_assoc. rewrite put_at by slen. cbn [obind].
+      rewrite app_assoc. rewrite put_at by slen. cbn [obind].
+      rewrite app_assoc. rewrite IH by slen.
+      rewrite !skipn_skipn'. cbn [length].
+      rewrite <- !app_assoc. cbn [app].
+      assert (E : (1 + (1 + (length (o_data o) + Z.to_nat (opts_len r))))%nat
+                  = Z.to_nat (2 + len (o_data o) + opts_len r)) by slen.
+      rewrite E. f_equal. f_equal. lia.
+Qed.
+
+Definition ser_hdr (t : tcp) (fx : bool) (pad : list Z) (off ck : Z) : list Z :=
+  be_bytes 2 (t_sp t) ++ be_bytes 2 (t_dp t) ++ be_bytes 4 (t_seq t) ++ be_bytes 4 (t_ack t) ++
+  be_bytes 2 ((off * 4096) mod 65536 + t_flags t) ++ be_bytes 2 (t_win t) ++ be_bytes 2 ck ++
+  be_bytes 2 (t_urg t) ++ opts_bytes fx (t_opts t) ++ pad.
+
+Definition ser_pad (t : tcp) (fx : bool) : list Z :=
+  let ol := opts_len (t_opts t) in
+  if fx && negb (ol mod 4 =? 0) then repeat 0 (Z.to_nat (4 - ol mod 4)) else t_pad t.
+Definition ser_off (t : tcp) (fx : bool) : Z :=
+  if fx then u8 ((len (ser_pad t fx) + opts_len (t_opts t) + 20) / 4) else t_off t.
+
+(* what SerializeTo produces, with no reference to the prior content of the buffer *)
+Definition ser_spec (t : tcp) (payload : list Z) (fx csum : bool) (ph : option Z) : outcome (list Z) * tcp :=
+  let pad := ser_pad t fx in let off := ser_off t fx in
+  if csum then
+    match ph with
+    | None => (Err 5, set_ser t pad off (t_sum t))
+    | Some p =>
+      let ck := fold_csum (l4_csum p (ser_hdr t fx pad off 0 ++ payload)) in
+      (Ok (ser_hdr t fx pad off ck ++ payload), set_ser t pad off ck)
+    end
+  else (Ok (ser_hdr t fx pad off (t_sum t) ++ payload), set_ser t pad off (t_sum t)).
+
+Lemma resize_length junk n : length (resize junk n) = n.
+Proof. unfold resize. rewrite firstn_length, app_length, repeat_length. lia. Qed.
+
+Lemma hdr_chain (t : tcp) fx pad fo buf0 :
+  len buf0 = 20 + opts_len (t_opts t) + len pad ->
+  (b <- put 210 buf0 0 (be_bytes 2 (t_sp t)) ;;
+   b <- put 211 b 2 (be_bytes 2 (t_dp t)) ;;
+   b <- put 212 b 4 (be_bytes 4 (t_seq t)) ;;
+   b <- put 213 b 8 (be_bytes 4 (t_ack t)) ;;
+   b <- put 214 b 12 (be_bytes 2 fo) ;;
+   b <- put 215 b 14 (be_bytes 2 (t_win t)) ;;
+   b <- put 216 b 18 (be_bytes 2 (t_urg t)) ;;
+   bs <- write_opts fx (t_opts t) b 20 ;;
+   put 217 (fst bs) (snd bs) pad) =
+  Ok ((be_bytes 2 (t_sp t) ++ be_bytes 2 (t_dp t) ++ be_bytes 4 (t_seq t) ++ be_bytes 4 (t_ack t) ++
+       be_bytes 2 fo ++ be_bytes 2 (t_win t)) ++ firstn 2 (skipn 16 buf0) ++
+      (be_bytes 2 (t_urg t) ++ opts_bytes fx (t_opts t) ++ pad)).
+Proof.
+  intros Hlen. pose proof (opts_len_nonneg (t_opts t)) as Hol. pose proof (len_nonneg pad) as Hpad.
+  change buf0 with ([] ++ buf0) at 1.
+  rewrite put_at by slen. cbn [obind app]. rewrite be_bytes_length.
+  rewrite put_at by slen. cbn [obind]. rewrite be_bytes_length, skipn_skipn'.
+  rewrite app_assoc. rewrite put_at by slen. cbn [obind]. rewrite be_bytes_length, skipn_skipn'.
+  rewrite app_assoc. rewrite put_at by slen. cbn [obind]. rewrite be_bytes_length, skipn_skipn'.
+  rewrite app_assoc. rewrite put_at by slen. cbn [obind]. rewrite be_bytes_length, skipn_skipn'.
+  rewrite app_assoc. rewrite put_at by slen. cbn [obind]. rewrite be_bytes_length, skipn_skipn'.
+  cbn [Nat.add].
+  rewrite <- (firstn_skipn 2 (skipn 16 buf0)) at 1. rewrite skipn_skipn'. cbn [Nat.add].
+  rewrite app_assoc. rewrite (app_assoc _ (firstn 2 (skipn 16 buf0))).
+  assert (Hf : length (firstn 2 (skipn 16 buf0)) = 2%nat).
+  { rewrite firstn_length, skipn_length. unfold len in Hlen. lia. }
+  set (s16 := firstn 2 (skipn 16 buf0)) in *.
+  rewrite put_at by (unfold len in *; rewrite ?app_length, ?skipn_length, ?be_bytes_length, ?Hf in *; cbn [length]; lia).
+  cbn [obind]. rewrite be_bytes_length, skipn_skipn'. cbn [Nat.add].
+  rewrite app_assoc.
+  rewrite write_opts_eq by (unfold len in *; rewrite ?app_length, ?skipn_length, ?be_bytes_length, ?Hf in *; cbn [length]; lia).
+  cbn [obind fst snd]. rewrite skipn_skipn'.
+  rewrite app_assoc.
+  rewrite put_at by (rewrite ?len_app, ?opts_bytes_len; unfold len in *;
+                     rewrite ?app_length, ?skipn_length, ?be_bytes_length, ?Hf in *; cbn [length]; lia).
+  rewrite skipn_skipn'. rewrite skipn_all2 by (unfold len in *; lia).
+  rewrite app_nil_r. rewrite <- !app_assoc. reflexivity.
+Qed.
+
+Lemma serialize_spec t payload fx csum ph junk :
+  serialize t payload fx csum ph junk = ser_spec t payload fx csum ph.
+Proof.
+  unfold serialize, ser_spec. fold (ser_pad t fx). fold (ser_off t fx).
+  set (pad := ser_pad t fx). set (off := ser_off t fx). cbv zeta.
+  pose proof (opts_len_nonneg (t_opts t)) as Hol. pose proof (len_nonneg pad) as Hpad.
+  set (buf0 := resize junk _).
+  assert (Hlen : len buf0 = 20 + opts_len (t_opts t) + len pad).
+  { unfold buf0, len. rewrite resize_length. unfold len in *. lia. }
+  rewrite (hdr_chain t fx pad _ buf0 Hlen).
+  assert (Hf : length (firstn 2 (skipn 16 buf0)) = 2%nat).
+  { rewrite firstn_length, skipn_length. unfold len in Hlen. lia. }
+  set (A := be_bytes 2 (t_sp t) ++ _ ++ _ ++ _ ++ _ ++ be_bytes 2 (t_win t)).
+  assert (HA : length A = 16%nat) by (unfold A; rewrite !app_length, !be_bytes_length; reflexivity).
+  set (B := be_bytes 2 (t_urg t) ++ _ ++ pad).
+  assert (Hput : forall s v, length v = 2%nat ->
+            put s (A ++ firstn 2 (skipn 16 buf0) ++ B) 16 v = Ok (A ++ v ++ B)).
+  { intros s v Hv. rewrite put_at by (unfold len; rewrite ?app_length, ?Hf, ?HA, ?Hv; lia).
+    rewrite skipn_app, Hv. rewrite skipn_all2 by lia. rewrite Hf. reflexivity. }
+  assert (Hshape : forall ck, A ++ be_bytes 2 ck ++ B = ser_hdr t fx pad off ck).
+  { intros ck. unfold A, B, ser_hdr. rewrite <- !app_assoc. reflexivity. }
+  destruct csum.
+  - rewrite Hput by reflexivity.
+    destruct ph as [p|]; [|reflexivity].
+    change [0; 0] with (be_bytes 2 0). rewrite Hshape.
+    assert (Hput2 : forall s v, length v = 2%nat -> put s (A ++ be_bytes 2 0 ++ B) 16 v = Ok (A ++ v ++ B)).
+    { intros s v Hv. rewrite put_at by (unfold len; rewrite ?app_length, ?be_bytes_length, ?HA, ?Hv; lia).
+      rewrite skipn_app, Hv. rewrite skipn_all2 by (rewrite be_bytes_length; lia).
+      rewrite be_bytes_length. reflexivity. }
+    rewrite <- (Hshape 0). rewrite Hput2 by apply be_bytes_length. rewrite !Hshape. reflexivity.
+  - rewrite Hput by apply be_bytes_length. rewrite Hshape. reflexivity.
+Qed.
+
+Lemma serialize_np t payload fx csum ph junk : np (fst (serialize t payload fx csum ph junk)).
+Proof.
+  rewrite serialize_spec. unfold ser_spec. cbv zeta.
+  destruct csum; [destruct ph|]; exact I.
+Qed.
+
+Lemma serialize_junk_free t payload fx csum ph j1 j2 :
+  serialize t payload fx csum ph j1 = serialize t payload fx csum ph j2.
+Proof. rewrite !serialize_spec. reflexivity. Qed.
+
+(* serializing the layer that SerializeTo left behind (FixLengths/ComputeChecksums mutate it)
+   gives the same bytes and leaves it unchanged *)
+Lemma serialize_again t payload fx csum ph j1 j2 :
+  serialize (snd (serialize t payload fx csum ph j1)) payload fx csum ph j2 = serialize t payload fx csum ph j1.
+Proof.
+  rewrite !serialize_spec. unfold ser_spec. cbv zeta.
+  assert (Hpad : forall ck, ser_pad (set_ser t (ser_pad t fx) (ser_off t fx) ck) fx = ser_pad t fx).
+  { intros ck. unfold ser_pad. cbn [t_opts t_pad set_ser].
+    destruct (fx && negb (opts_len (t_opts t) mod 4 =? 0)); reflexivity. }
+  assert (Hoff : forall ck, ser_off (set_ser t (ser_pad t fx) (ser_off t fx) ck) fx = ser_off t fx).
+  { intros ck. unfold ser_off at 1. rewrite Hpad. cbn [t_opts t_off set_ser]. unfold ser_off. destruct fx; reflexivity. }
+  assert (Hhdr : forall ck ck', ser_hdr (set_ser t (ser_pad t fx) (ser_off t fx) ck) fx (ser_pad t fx) (ser_off t fx) ck'
+                 = ser_hdr t fx (ser_pad t fx) (ser_off t fx) ck') by reflexivity.
+  assert (Hset : forall ck ck', set_ser (set_ser t (ser_pad t fx) (ser_off t fx) ck) (ser_pad t fx) (ser_off t fx) ck'
+                 = set_ser t (ser_pad t fx) (ser_off t fx) ck') by reflexivity.
+  destruct csum; [destruct ph as [p|]|]; cbn [snd]; rewrite Hpad, Hoff, ?Hhdr, ?Hset; reflexivity.
+Qed.
